@@ -79,13 +79,13 @@ func concatParts(v ssa.Value) []ssa.Value {
 }
 
 type printerStringBranches struct {
-	fn                     *ssa.Function
-	quoted, raw, keyword   []ssa.Value // parts of the returned concatenation
+	fn                       *ssa.Function
+	quoted, raw, keyword     []ssa.Value // parts of the returned concatenation
 	quotedRet, rawRet, kwRet *ssa.Return
-	strVal                 ssa.Value // the string being printed (tobj)
-	marker                 string
-	strFn                  *ssa.Function // the function holding the string branches (Pr_str or a helper handed the string)
-	strKey                 string        // access path of the string being printed inside strFn
+	strVal                   ssa.Value // the string being printed (tobj)
+	marker                   string
+	strFn                    *ssa.Function // the function holding the string branches (Pr_str or a helper handed the string)
+	strKey                   string        // access path of the string being printed inside strFn
 }
 
 // findPrinterStringBranches locates, in Pr_str, the returns of the string case: keyword, quoted, raw.
@@ -498,7 +498,7 @@ func checkC06(w *World, r *Report) {
 			}
 		}
 	}
-	if fn := w.Fn("lib/core", "istype"); fn != nil {
+	if fn := w.builtin("type?"); fn != nil {
 		for _, b := range fn.Blocks {
 			for _, in := range b.Instrs {
 				if c, ok := in.(*ssa.Call); ok && isStringsFn(c, "HasPrefix") {
@@ -606,8 +606,8 @@ func checkC06(w *World, r *Report) {
 				continue
 			}
 			typ := ""
-			switch fn.Name() {
-			case "read_form":
+			switch {
+			case fn == w.Fn("reader", "read_form"):
 				typ = "types.List"
 			default:
 				// the type constructed: result type of the constructor the list is handed to, or the literal built
@@ -856,7 +856,7 @@ func checkC16(w *World, r *Report) {
 					continue
 				}
 				callee := c.Call.StaticCallee()
-				if callee == nil || fnPkgPath(callee) != modPath+"/reader" || hasErrorResult(callee) < 0 || !strings.HasPrefix(callee.Name(), "read_") {
+				if callee == nil || fnPkgPath(callee) != modPath+"/reader" || hasErrorResult(callee) < 0 || !isReaderFn(callee) {
 					continue
 				}
 				errEx := extractOf(c, hasErrorResult(callee))
@@ -914,7 +914,7 @@ func checkC16(w *World, r *Report) {
 					// no read_* call in the case
 					calls := false
 					for _, in := range t.Instrs {
-						if c, ok := in.(*ssa.Call); ok && c.Call.StaticCallee() != nil && strings.HasPrefix(c.Call.StaticCallee().Name(), "read_") {
+						if c, ok := in.(*ssa.Call); ok && isReaderFn(c.Call.StaticCallee()) {
 							calls = true
 						}
 					}
@@ -927,7 +927,7 @@ func checkC16(w *World, r *Report) {
 	}
 	ns := 0
 	for cl, caller := range closers {
-		if caller == "read_external" {
+		if _ = caller; cl != ")" && cl != "]" && cl != "}" {
 			r.add("C16.stray", readForm, "closer "+cl, token.NoPos, "info", "Go-constructor bracket: outside the property's quantifier (list, vector, map, set)")
 			continue
 		}
@@ -947,7 +947,7 @@ func checkC16(w *World, r *Report) {
 			continue
 		}
 		dx, dy := describeVal(e, bo.X, 0), describeVal(e, bo.Y, 0)
-		if !(strings.Contains(dx+dy, "position") && strings.Contains(dx+dy, "len(")) {
+		if !(strings.Contains(dx+dy, w.roles().readerPosition) && strings.Contains(dx+dy, "len(")) {
 			continue
 		}
 		succIdx := 1
@@ -973,12 +973,12 @@ func checkC16(w *World, r *Report) {
 		if f.Kind == "nil" {
 			if phi, ok := f.K.Root.(*ssa.Phi); ok && f.K.Path == "" {
 				for _, op := range phi.Edges {
-					if c, ok := op.(*ssa.Call); ok && c.Call.StaticCallee() != nil && c.Call.StaticCallee().Name() == "peek" {
+					if c, ok := op.(*ssa.Call); ok && w.isTokenPeek(c.Call.StaticCallee()) {
 						okSite = true
 					}
 				}
 			}
-			if c, ok := f.K.Root.(*ssa.Call); ok && f.K.Path == "" && c.Call.StaticCallee() != nil && c.Call.StaticCallee().Name() == "peek" {
+			if c, ok := f.K.Root.(*ssa.Call); ok && f.K.Path == "" && w.isTokenPeek(c.Call.StaticCallee()) {
 				okSite = true
 			}
 		}
@@ -1038,7 +1038,7 @@ func checkC15(w *World, r *Report) {
 					continue
 				}
 				p := fnPkgPath(callee)
-				if (p == modPath+"/reader" && callee.Name() != "next" && callee.Name() != "peek") || p == modPath+"/printer" {
+				if (p == modPath+"/reader" && !w.isTokenNext(callee) && !w.isTokenPeek(callee)) || p == modPath+"/printer" {
 					okData = false
 					r.bad("C15.data", rp, "call "+callee.Name(), c.Pos(), "the placeholder value is re-read or printed instead of being inserted as data")
 				}
@@ -1048,9 +1048,22 @@ func checkC15(w *World, r *Report) {
 	okRet := false
 	for _, rt := range (&evalModel{}).returns(rp) {
 		if lk, ok := rt[1].(ssa.Value).(*ssa.Lookup); ok {
-			d := describeVal(e, lk, 0)
-			if strings.Contains(d, "placeholderValues") && strings.Contains(d, "Value") {
-				okRet = true
+			// the table is the function's own *HashMap parameter, the key the token's text
+			fieldLoad := func(v ssa.Value) (*ssa.FieldAddr, bool) {
+				ld, ok := v.(*ssa.UnOp)
+				if !ok || ld.Op != token.MUL {
+					return nil, false
+				}
+				fa, ok := ld.X.(*ssa.FieldAddr)
+				return fa, ok
+			}
+			tbl, ok1 := fieldLoad(lk.X)
+			key, ok2 := fieldLoad(lk.Index)
+			if ok1 && ok2 {
+				_, isParamTable := tbl.X.(*ssa.Parameter)
+				if isParamTable && fieldName(tbl.X.Type(), tbl.Field) == "Val" && fieldName(key.X.Type(), key.Field) == "Value" && isTokenStruct(key.X.Type()) {
+					okRet = true
+				}
 			}
 		}
 	}
@@ -1439,7 +1452,6 @@ func dominatedByNotContainsLF(fn *ssa.Function, b *ssa.BasicBlock) bool {
 	}
 	return false
 }
-
 
 // escapeAgreement: the printer's quoted-form replacement chain, inverted, equals the reader's un-escape table.
 func escapeAgreement(w *World, r *Report, e *Engine, rule string) {
